@@ -25,7 +25,8 @@ def scenario_of(h):
     fn, ty, args = m.group(1), m.group(2).split(',')[0].strip(), [a.strip() for a in m.group(3).split(',')]
     s = dict(esz=ESZ.get(ty, 8))
     if s['esz'] == 0:
-        s['esz'] = 8     # the native driver has no identity for zero-sized values; same code path, size 8
+        s['esz'] = 8
+        s['zst'] = 1     # zero-sized elements: the native driver compares lengths and counts only
     last = lambda a: a.split('::')[-1]
     if fn == 'insert_owned':
         s.update(fam='insert', src=SRCS[args[0]], push=int(args[1] == 'true'))
